@@ -228,7 +228,8 @@ class ECDSAKey(PKey):
         return m
 
     def verify_ssh_sig(self, data, msg):
-        if msg.get_text() != self.ecdsa_curve.key_format_identifier:
+        sig_algorithm = self._get_sig_algorithm(msg)
+        if sig_algorithm != self.ecdsa_curve.key_format_identifier:
             return False
         sig = msg.get_binary()
         sigR, sigS = self._sigdecode(sig)
